@@ -130,8 +130,7 @@ before any `Recv`/`Send` return function ran (`raw`), the absolute wake time `w`
 `yield n>0`, `Select/Recv/Send` with a timeout, `Timer`), and whether the wait also had descriptors.  A task that only slept is
 resumed at `now ≥ w`; a task waiting on descriptors with a timeout — including `Recv` and `Send` — is resumed either because a
 descriptor is ready (the hub then hands back non-empty lists) or, with the timeout value `([],[],[])`, at `now ≥ w`.
-`w` is the model's own bookkeeping; that it is the time the preceding yield asked for is `wake_is_requested` + `wake_kept` +
-`delivery` below.  ("Exactly once" is `step_once`.) -/
+`w` is the model's own bookkeeping; that it is the time the preceding yield asked for is `wake_is_requested_trace` below.  ("Exactly once" is `step_once`.) -/
 theorem not_early :
     ∀ t i tm r raw w fds, Ev.step t i tm r raw (some (w, fds)) ∈ (reach cfg t0 tasks timers ss rs ps ds n).trace →
       (fds = false ∨ raw = timeoutVal) → w ≤ tm := by
@@ -162,13 +161,38 @@ theorem wake_is_requested (s : St) (t : Nat) (rest ds' : List Nat) (tk : Task) (
   cycle_wake cfg s t rest ds' tk k prog y hrun hpop htk hkind hprog hrf hy
 
 /-- **wake_kept.**  The noted wake time of a task does not change while the task is not the one being run: not by a hub pass,
-not by a cycle in which it is not in the ready deque.  (With `wake_is_requested` before and `delivery` after — the event records
-`tk.wake` — the `w` of `not_early` is the requested time.  This is a chain of one-step theorems, not one trace-level statement;
-and a `Send` that is re-registered after a partial write restarts its timeout, as the code does.) -/
+not by a cycle in which it is not in the ready deque.  (One-step form; the trace-level statement is `wake_is_requested_trace`.) -/
 theorem wake_kept (s : St) (u : Nat) :
     wkL (idleStep cfg s).tasks u = wkL s.tasks u ∧
     (s.running = none → u ∉ s.ready → u < s.tasks.length → wkL (cycle cfg s).tasks u = wkL s.tasks u) :=
   ⟨idle_wake cfg s u, fun hrun hu hl => cycle_wake_other cfg s hrun u hu hl⟩
+
+/-- **wake_is_requested_trace.**  In every reachable state: if the trace contains resume number `i+1` of a top-level task whose
+yield number `i` is `y` (anything but a `Send`, which re-registers itself after a partial write and thereby restarts its
+timeout, as the code does), then it contains resume number `i` too, at some time `tm0`, and the wake time recorded in resume
+`i+1` — the `w` that `not_early` compares with the resume time — is exactly what `y` asks for at `tm0` (`reqWake tm0 y`).  With
+`program_order` (resume `i` occurs once) this ties every recorded wake time to the request that caused it. -/
+theorem wake_is_requested_trace (t i tm : Nat) (r : Recv) (raw : Val) (wf : Option (Nat × Bool)) (k : Nat) (prog : List Y) (y : Y)
+    (ht : tasks[t]? = some k) (hprog : cfg.progs[k]? = some prog) (hy : prog[i]? = some y) (hns : y.isSend = false)
+    (hm : Ev.step t (i + 1) tm r raw wf ∈ (reach cfg t0 tasks timers ss rs ps ds n).trace) :
+    ∃ tm0 r0 raw0 w0, Ev.step t i tm0 r0 raw0 w0 ∈ (reach cfg t0 tasks timers ss rs ps ds n).trace ∧ wf = reqWake tm0 y :=
+  wake_requested_trace cfg t0 tasks timers ss rs ps ds n t i tm r raw wf k prog y ht hprog hy hns hm
+
+/-- **ready_returns** (no lost wake-up for a ready descriptor).  One hub pass hands back every hub entry that waits for a
+descriptor `f` which is ready now — readable, writable, or in error — provided no other task waits on `f` in the same set
+(`_select` keeps one task per descriptor in its `rl`/`wl`/`xl` dictionaries: a later registration shadows an earlier one; that is
+the code's behaviour, see the harness's "two tasks select on one fd" scenario).  For states with `Inv` (every reachable state has
+it: `single_place`), not crashed, ready deque empty. -/
+theorem ready_returns (s : St) (hs : s = reach cfg t0 tasks timers ss rs ps ds n) (hc : s.crashed = false) (hr : s.ready = [])
+    (e : HubEntry) (he : e ∈ s.hub) (f rt : Nat) (hle : rt ≤ s.now) :
+    (f ∈ e.rl → (∀ e' ∈ s.hub, f ∈ e'.rl → e'.tid = e.tid) → fdTime cfg.env.rAt f = some rt → e.tid ∈ (idleStep cfg s).ready) ∧
+    (f ∈ e.wl → (∀ e' ∈ s.hub, f ∈ e'.wl → e'.tid = e.tid) → fdTime cfg.env.wAt f = some rt → e.tid ∈ (idleStep cfg s).ready) ∧
+    (f ∈ e.xl → (∀ e' ∈ s.hub, f ∈ e'.xl → e'.tid = e.tid) → fdTime cfg.env.xAt f = some rt → e.tid ∈ (idleStep cfg s).ready) := by
+  subst hs
+  have hi := Inv.run cfg n (Inv.init t0 tasks timers ss rs ps ds)
+  exact ⟨fun hf hu hrt => fd_ready_returns cfg hi hc hr e he f hf hu rt hrt hle,
+         fun hf hu hrt => fd_ready_returns_wl cfg hi hc hr e he f hf hu rt hrt hle,
+         fun hf hu hrt => fd_ready_returns_xl cfg hi hc hr e he f hf hu rt hrt hle⟩
 
 /-- **expired_returns.**  One hub pass puts every hub entry whose timeout has expired back into the ready deque (reachable,
 not crashed states; the hub is polled when the deque is empty). -/
@@ -440,6 +464,20 @@ hub table with its deadline reached and the ready deque is empty — the next pa
 def twoCfg : Cfg := { progs := [[.sleep (some 16)], [.sleep (some 16)]], env := { rAt := [], wAt := [], xAt := [] } }
 example : let s := reach twoCfg 8000 [0, 1] [] [] [] [] [] 4
     s.crashed = false ∧ s.ready = [] ∧ s.now = 8016 ∧ s.hub = [⟨1, [], [], [], some 8016⟩] ∧ (idleStep twoCfg s).ready = [1] := by decide
+
+/-- `ready_returns`: after the pass that moved the two registrations into the hub table, descriptor 0 is readable and descriptor 1
+writable, the deque is empty — the next pass returns both tasks -/
+def fdCfg : Cfg := { progs := [[.select [0] [2] [] none, .num 0], [.send 1 4 none 4]],
+                     env := { rAt := [some 8000], wAt := [none, some 8000, none], xAt := [] } }
+example : let s := reach fdCfg 8000 [0, 1] [] [] [] [] [] 3
+    s.crashed = false ∧ s.ready = [] ∧ s.hub = [⟨0, [0], [2], [], none⟩, ⟨1, [], [1], [1], none⟩] ∧
+    fdTime fdCfg.env.rAt 0 = some 8000 ∧ fdTime fdCfg.env.wAt 1 = some 8000 ∧ s.now = 8000 ∧ (idleStep fdCfg s).ready = [0, 1] := by decide
+
+/-- `wake_is_requested_trace`: in the demo, task 1 runs program 1 whose yield 0 is a pure-timeout select (not a `Send`), resume 1 is in
+the trace with wake time 8004 = what that select asks for at 8000 -/
+example : [0, 1][1]? = some 1 ∧ demoCfg.progs[1]? = some [.select [] [] [] (some 4), .num 0, .num 24] ∧
+    (Y.select [] [] [] (some 4)).isSend = false ∧ reqWake 8000 (Y.select [] [] [] (some 4)) = some (8004, false) ∧
+    Ev.step 1 1 8004 (.val timeoutVal) timeoutVal (some (8004, false)) ∈ (demo 19).trace := by decide
 
 /-- `fair_partial`: the demo program table has no sub-task calls, the initial state no sub-tasks, all priorities are 1, and
 task 1 is second in line -/
